@@ -23,6 +23,7 @@ fn main() {
         "worker" => worker(&args[2..]),
         "replay" => replay(&args[2]),
         "c19call" => props::c19::call_main(&args[2]),
+        "c19digest" => props::c19::digest_main(args.get(2).map(|s| s.as_str()).unwrap_or("fwd")),
         "c19loom" => props::c19::loom_main(&args[2], args.get(3).map(|s| s.as_str()).unwrap_or("2")),
         "list" => {
             for p in props::all() {
@@ -46,6 +47,7 @@ fn worker(a: &[String]) -> i32 {
     let pre = std::path::PathBuf::from(&a[4]);
     let mut start_after = 0u64;
     let mut only: Option<u64> = None;
+    let mut stop_after: Option<u64> = None;
     let mut i = 5;
     while i < a.len() {
         match a[i].as_str() {
@@ -55,6 +57,10 @@ fn worker(a: &[String]) -> i32 {
             }
             "--only" => {
                 only = Some(a[i + 1].parse().unwrap());
+                i += 2;
+            }
+            "--stop-after" => {
+                stop_after = Some(a[i + 1].parse().unwrap());
                 i += 2;
             }
             _ => i += 1,
@@ -71,6 +77,7 @@ fn worker(a: &[String]) -> i32 {
     let mut c = Ctx::new(prop, tier, shard, nshards);
     c.start_after = start_after;
     c.only_case = only;
+    c.stop_after = stop_after;
     c.seed = std::env::var("VERIF_SEED").ok().and_then(|s| s.parse().ok()).unwrap_or(0);
     c.sample_every = 9973;
     if only.is_some() {
@@ -120,6 +127,26 @@ fn replay(file: &str) -> i32 {
     let mut c = Ctx::new(prop, tier_of(v["tier"].as_str().unwrap_or("quick")), 0, 1);
     println!("replaying {} case (profile {}): {}", prop, ctx::profile_name(), v["signature"].as_str().unwrap_or(""));
     (def.replay)(&mut c, &v["case"]);
+    if c.violations.is_empty() {
+        if let Some(cx) = v.get("context").filter(|x| x.is_object()) {
+            // the case alone shows nothing: re-run the sweep of its shard up to and including it
+            // (a result that depends on the calls made before it)
+            let shard = cx["shard"].as_u64().unwrap_or(0);
+            let nshards = cx["nshards"].as_u64().unwrap_or(1).max(1);
+            let case_no = cx["case_no"].as_u64().unwrap_or(0);
+            println!("  not reproduced in isolation; re-running shard {shard}/{nshards} of the sweep up to case {case_no}");
+            let mut c2 = Ctx::new(prop, tier_of(v["tier"].as_str().unwrap_or("quick")), shard, nshards);
+            c2.stop_after = Some(case_no);
+            (def.run)(&mut c2);
+            let sig = v["signature"].as_str().unwrap_or("");
+            if let Some(viol) = c2.violations.get(sig) {
+                println!("VIOLATION property={prop} replay={file}");
+                println!("  signature: {sig}");
+                println!("  detail (reproduced only after the earlier cases of the sweep: the result depends on call history): {}", viol.detail);
+                return 1;
+            }
+        }
+    }
     if c.violations.is_empty() {
         println!("no violation observed on this tree");
         0
